@@ -23,7 +23,10 @@ _NAMES = ("guarded_content_confined", "reply_ok_meaning", "range_of_clean_body_c
           "refused_reply_is_404", "hidden_file_indistinguishable_from_absent", "error_page_line_v0_refuted",
           "tmpl_names_guarded_file_refuted", "allow_404_template_refuted", "file_cache_transparent",
           "guarded_content_confined_with_file_cache",
-          "private_spelling_v0_refuted", "cache_directive_v0_refuted", "violates_contradicts_confined")
+          "private_spelling_v0_refuted", "cache_directive_v0_refuted", "violates_contradicts_confined",
+          "guarded_content_confined_changing_files", "changing_files_extends_fixed_files", "scenario_without_writes_unchanged",
+          "guard_line_any_length", "long_allow_list_decides", "vary_admission_v0_refuted", "violates_w_contradicts_confined",
+          "allow_ips_variant_never_pushed")
 THEOREMS = [(n, _PINS[n]) for n in _NAMES]
 RULE = ("(1) guards.run: histories of requests against the real kvarn::handle_cache in process (host = Extensions::empty() or, for a third of the "
         "scenarios, Extensions::new() [default Prime 'Expand . and /': /e/ -> /e/index.html, /r. -> /r.html; CORS denial route], + "
@@ -50,11 +53,26 @@ RULE = ("(1) guards.run: histories of requests against the real kvarn::handle_ca
         "the specified result is the empty list. (3) guards.push: a public HTML page that links every fixture file, fetched over TLS + HTTP/2 by "
         "listed and not listed clients (IPv4, IPv6, loopback); every response kvarn_extensions::push PUSHES (its internal handle_cache request) "
         "is judged by the marker oracle like an answer; at least two pushed responses per fetch or the case counts as not executed. "
+        "(4) FILES THAT CHANGE: the fixture rewrites public files between two requests of a history (op 4 of guards.run / guards.wire; model: a "
+        "new world, theorem guarded_content_confined_changing_files): the path has a vary rule and an item in the response cache from an earlier "
+        "version of the file (public page, hidden, other list) or from before its deployment (cached 404); the file gets a guard line; a listed "
+        "client asks for a variant the item lacks (handle_vary_missing), then strangers ask for it (GET/HEAD, queries, conditional, other "
+        "spellings, default redirect /idx/); later versions follow (list edited, public again, hidden). Replies are judged by the version the "
+        "server holds at that moment (spec component and Python oracle). (5) LONG '!> ' LINES: allow lists of 1..100 IPv4/IPv6 addresses with the "
+        "listed client first / in the middle / last, up to 40 directives, arguments of 300..600 bytes, hide or the deciding allow-ips at the very "
+        "end; lines fitted to 255..257, 511..513, 1023..1025 bytes in guards.run (4095..4097 in the thorough tier) and to 4095..4097, 16383/4, "
+        "65536, 65537 bytes in guards.wire (marker oracle and refused-vs-absent comparison inside the harness; the Gallina parser transcribes "
+        "the Rust loop and is quadratic in the line length). "
         "distinct_nontrivial = distinct (scenario, outcome) pairs in which a listed address received guarded content and a later request was refused")
 ASSUMPTIONS = [
-    "what the server holds for a path (file-cache entry, else disk) does not change during a history, and there are no links that give a "
+    "files may change between two requests of a history (guarded_content_confined_changing_files: any sequence of worlds = public files, "
+    "error pages, template engine; in every world the secret occurs only in guarded files; a reply is judged by the world of its moment) but "
+    "not DURING a request (the fixture renames a complete file into place); refused_reply_is_404, hidden_file_indistinguishable_from_absent and "
+    "the file-cache theorems are about histories with fixed files (after a change the response cache may still hold - and serve - the answers "
+    "of an earlier version: its 200 while the page was public, its 404; never a guarded version's content). There are no links that give a "
     "guarded file a second name (fs is a function of the path text; the fixture tree uses PathSan's resolution: ENOTDIR, empty and '.' "
-    "components, '..'); the file cache itself - any initial content, any fills - is covered by file_cache_transparent",
+    "components, '..'); the file cache itself - any initial content, any fills - is covered by file_cache_transparent; in the scenario model "
+    "only public files are rewritten (read::file never fills the file cache)",
     "the secret (any byte string) occurs in no error page and templates introduce no guarded content (hypotheses Herr_clean / Htmpl of "
     "guarded_content_confined; error pages MAY carry a '!> ' line and be '!> tmpl' templates). A page whose '!> tmpl' argument names a guarded "
     "file violates Htmpl: known class tmpl-names-guarded-file",
@@ -73,7 +91,8 @@ ASSUMPTIONS = [
 ]
 TRUSTED = ["modelled: extensions/src/lib.rs ip_allow, hide (incl. a templated 404 page), cache, download, templates (Model/Templates.v, C02), mount_all; "
            "src/extensions.rs resolve_present; src/error.rs default (errors/<code>.html or the hard-coded page); src/lib.rs get_response/"
-           "handle_request file path and the CORS denial route + handle_cache in full (Model/CacheX.v, C03/C04); src/read.rs file / file_cached "
+           "handle_request file path and the CORS denial route + handle_cache in full (Model/CacheX.v, C03/C04; incl. handle_vary_missing's admission test); the "
+           "fixture's write op as a change of the world between two operations; src/read.rs file / file_cached "
            "(file cache as a map with negative entries); std Path::extension, core::net::parser IpAddr::from_str (IPv4 and IPv6, Rust 1.95), "
            "ClientCachePreference/ServerCachePreference::from_str; Model/PresentLine.v (C16) for the '!> ' line; Model/PathSan.v (C01) for "
            "decoding/sanitize"]
@@ -86,6 +105,15 @@ LEVEL_TEXT = ("Coq theorem guarded_content_confined over the model of the repair
               "*.private, and whose every allow-ips directive lists the request's own client address (reply_ok_meaning). Proof: per-request decision "
               "of the layer below the cache (an answer with the secret is an answer to a permitted request AND has server preference None, "
               "whatever cache directives surround allow-ips) + inductive cache invariant (what was admitted carries no secret). "
+              "guarded_content_confined_changing_files: the same for files that CHANGE during the history - a history is any list of (world, "
+              "operation), the response cache lives through it and may hold answers of earlier worlds; a reply with the secret answers a request "
+              "permitted in the world of its own moment; in particular the 200 computed for a listed client is never pushed as a new variant into an "
+              "item cached earlier (the admission test of handle_vary_missing, allow_ips_variant_never_pushed; refuted without it: vary_admission_v0_refuted, the history public "
+              "page cached -> allow-ips line deployed -> listed client, other variant -> stranger, same variant); changing_files_extends_fixed_files / "
+              "scenario_without_writes_unchanged tie it to run_g and to the scenario runner of the differential run. guard_line_any_length / "
+              "long_allow_list_decides: the '!> ' line has no length limit - for every line of C16's grammar (any number of words of any length) the "
+              "directives are those written, and an allow list of ANY length refuses (host's 404) every address no argument lists and serves, "
+              "uncached, those it lists. "
               "file_cache_transparent + guarded_content_confined_with_file_cache: the same with the file cache as state, for any initial content "
               "(stale, negative entries), any fills, on or off - 'content of a file' is what the server holds for its path. refused_reply_is_404: in "
               "every history the reply to a request for a hidden / private / not-listed file is the host's 404 page as served for a path that does "
@@ -98,9 +126,10 @@ LEVEL_TEXT = ("Coq theorem guarded_content_confined over the model of the repair
               "with oracles that do not depend on the model (marker, refused-vs-absent twins, wire-level judge, pushed responses).")
 LEVEL_NOTE = ("Trusted: Coq kernel; extraction (sample re-checked in-kernel); hand transcription validated by the differential run; "
               "fs / error pages / template engine / negotiation / vary / Prime extensions as section variables with the stated hypotheses; Range, "
-              "HEAD and the rest of SendKind::send are not modelled (range_of_clean_body_clean + the wire-level oracle). No axioms. All 21 "
-              "statements are pinned (driver/props/pins/C17.json).")
-TECHNIQUE = ("Coq proof (cache invariants over all histories + per-request decision + simulation for the file cache) + differential correspondence on "
+              "HEAD and the rest of SendKind::send are not modelled (range_of_clean_body_clean + the wire-level oracle). Lines longer than 1025 "
+              "bytes (4097 thorough) are run against the real code only (wire component: marker oracle + refused-vs-absent), the theorem about "
+              "them is over the model's parser. No axioms. All 29 statements are pinned (driver/props/pins/C17.json).")
+TECHNIQUE = ("Coq proof (cache invariants over all histories, also with files that change + per-request decision + simulation for the file cache) + differential correspondence on "
              "kvarn::handle_cache with secret-marker, refused-vs-absent and wire-level oracles")
 
 REPORT = [b"cache-control", b"?last-modified"]
@@ -134,6 +163,11 @@ def py_ip(a):
 
 def greq(target, method=b"GET", addr=1, headers=(), body=b""):
     return xl(xn(0), xaddr(addr), xb(method), xb(target), xlist([xl(xb(k), xb(v)) for k, v in headers]), xb(body))
+
+
+def gwrite(rel, data):
+    """the fixture (re)writes public/<rel> between two requests of the history"""
+    return xl(xn(4), xb(rel), xb(data))
 
 
 def wreq(target, method, addr, headers, allow, twin):
@@ -461,6 +495,27 @@ def witnesses(rng):
            greq(b"/a.txt", addr=2, headers=[(b"x-forwarded-for", b"10.0.0.1"), (b"forwarded", b"for=10.0.0.1"), (b"x-real-ip", b"10.0.0.1")]),
            greq(b"/v6.txt", addr=V6("::1"), headers=[(b"x-forwarded-for", b"2001:db8::1"), (b"client-ip", b"::ffff:10.0.0.1")])]
     cases += mk(rng, files, ops, "corpus/address-families")
+    # files that change (theorem guarded_content_confined_changing_files; vary_admission_v0_refuted is the first history): the page is in the
+    # cache of a path with a vary rule, then gets an allow-ips line; a listed client asks for another variant, then a stranger does
+    pvary = [pipe.vary_rule(b"/page.html", [(b"x-v", 0, b"-")])]
+    grd = b"!> allow-ips 10.0.0.1\nSECRET:page.html:000014; for 10.0.0.1 only"
+    for first in ([xl(xb(b"public/page.html"), xb(b"PUBLIC:page.html:000015; public for now"))], []):
+        ops = [greq(b"/page.html", addr=2, headers=[(b"x-v", b"a")]), gwrite(b"page.html", grd),
+               greq(b"/page.html", addr=1, headers=[(b"x-v", b"b")]), greq(b"/page.html", addr=2, headers=[(b"x-v", b"b")]),
+               greq(b"/page.html", addr=1, headers=[(b"x-v", b"b")]), greq(b"/page.html", addr=3, headers=[(b"x-v", b"B")], method=b"HEAD"),
+               greq(b"/page.html", addr=2, headers=[(b"x-v", b"a")]), greq(b"/page.html", addr=2),
+               gwrite(b"page.html", b"!> allow-ips 10.0.0.2 &> cache server:full\nSECRET:page.html:000016; for 10.0.0.2 only"),
+               greq(b"/page.html", addr=2, headers=[(b"x-v", b"c")]), greq(b"/page.html", addr=1, headers=[(b"x-v", b"c")]),
+               greq(b"/page.html", addr=1, headers=[(b"x-v", b"b")])]
+        cases += mk(rng, files + first, ops, "corpus/deploy-guard-on-cached-page", vary=pvary, default_ext=False)
+    # long '!> ' lines (theorem long_allow_list_decides): 60 addresses (more than 512 bytes), the listed one last; hide behind a long list
+    many = b" ".join(b"10.20.30.%d" % k for k in range(1, 61))
+    lfiles = [xl(xb(b"public/l60.txt"), xb(b"!> allow-ips " + many + b" 10.0.0.1\nSECRET:l60.txt:000017; sixty-one addresses")),
+              xl(xb(b"public/lh.txt"), xb(b"!> allow-ips 10.0.0.1 " + many + b" &> hide\nSECRET:lh.txt:000018; nobody")),
+              xl(xb(b"public/l6.txt"), xb(b"!> allow-ips " + b" ".join(b"2001:db8:0:%x::1" % k for k in range(1, 40)) + b" ::1\nSECRET:l6.txt:000019; IPv6 list"))]
+    cases += mk(rng, lfiles, [greq(b"/l60.txt", addr=1), greq(b"/l60.txt", addr=2), greq(b"/l60.txt", addr=V4("10.20.30.60")), greq(b"/l60.txt", addr=V4("10.20.30.61")),
+                              greq(b"/lh.txt", addr=1), greq(b"/lh.txt", addr=2), greq(b"/l6.txt", addr=V6("::1")), greq(b"/l6.txt", addr=V6("2001:db8:0:27::1")),
+                              greq(b"/l6.txt", addr=V6("2001:db8:0:28::1")), greq(b"/l6.txt", addr=1), greq(b"/l60%2Etxt", addr=3)], "corpus/long-line")
     # double decoding, invalid escapes, parameters
     cases += mk(rng, files, [greq(t, addr=a) for a in (1, 2) for t in
                              (b"/secret%252Eprivate", b"/secret.private%00", b"/secret.private%", b"/secret.private%zz", b"/secret.private;x", b"/secret%C0%AEprivate",
@@ -551,6 +606,246 @@ def expiry_cases(rng, n):
     return cases
 
 
+def transition_cases(rng, n):
+    """FILES THAT CHANGE during a history (theorem guarded_content_confined_changing_files): the path has a vary rule and an item in
+    the response cache that stems from an EARLIER version of the file (public page, other allow list, hidden) or from the time before
+    the file was deployed (cached 404); then the file is (re)written with a guard line; a listed client asks for a variant the item does
+    not hold (handle_vary_missing), then clients that are not listed ask for the same variant, for the old one, with and without
+    queries, HEAD, conditional; later versions (list edited, public again, guarded again) follow"""
+    cases = []
+    for i in range(n):
+        rel = rng.choice([b"page.html", b"t/doc.txt", b"news", b"q.md", b"d/w.css", b"idx/index.html"])
+        path = b"/" + rel
+        if rel == b"idx/index.html" and rng.random() < 0.5:
+            path_req, de = b"/idx/", True           # default Prime 'Expand . and /'
+        else:
+            path_req, de = path, None
+        sp = path_req if rng.random() < 0.6 else encode(path_req, rng.choice(dot_masks(path_req) + [rng.getrandbits(len(path_req) - 1)]), rng)
+        hv = b"x-v"
+        xf = rng.choice([0, 0, 1])
+        vals = [b"a", b"b", b"z", b"M"] if xf == 0 else [b"a", b"z", b"b", b"y"]      # transformed: distinct for xf 0; lo/hi/lo/hi for xf 1
+        # (the rules are those of the path after the rewriting Prime extensions)
+        rule_path = b"/idx/index.html" if de and sp == b"/idx/" else sp
+        vary = [pipe.vary_rule(rule_path, [(hv, xf, b"-")])] if rng.random() < 0.9 else None
+        start = rng.choice(["public", "public", "absent", "public-line", "hidden", "other-list"])
+        files = [xl(xb(b"public/other.txt"), xb(content(None, b"other.txt", rng, False)))]
+        if start == "public":
+            files.append(xl(xb(b"public/" + rel), xb(content(None, rel, rng, False))))
+        elif start == "public-line":
+            files.append(xl(xb(b"public/" + rel), xb(content(rng.choice(PLAIN_LINES[1:5]), rel, rng, False))))
+        elif start == "hidden":
+            files.append(xl(xb(b"public/" + rel), xb(content(rng.choice(HIDE_LINES), rel, rng, True))))
+        elif start == "other-list":
+            files.append(xl(xb(b"public/" + rel), xb(content(b"!> allow-ips 10.0.0.3", rel, rng, True))))
+        if rng.random() < 0.25:
+            files.append(xl(xb(b"errors/404.html"), xb(rng.choice(ERR404[3:7])[0])))
+        q = rng.choice([b"", b"", b"", b"?x=1"])
+        strangers = lambda: rng.choice(ADDRS[2:]) if rng.random() < 0.6 else rng.choice(STRANGERS)
+        ops = []
+        # the item enters the cache in the first world
+        first = rng.sample(vals, rng.randrange(1, 3))
+        for v in first:
+            ops.append(greq(sp + q, addr=strangers(), headers=[(hv, v)], method=rng.choice([b"GET", b"GET", b"HEAD"])))
+        if rng.random() < 0.3:
+            ops.append(greq(sp + q, addr=1, headers=[]))
+        rounds = rng.randrange(1, 4)
+        for rd in range(rounds):
+            kind_ = rng.choice(["allow", "allow", "allow", "allow6", "hide", "public"]) if rd else rng.choice(["allow", "allow", "allow", "allow6"])
+            listed = 1
+            if kind_ == "allow":
+                line = rng.choice(ALLOW_LINES[:14])
+            elif kind_ == "allow6":
+                line, who = rng.choice(V6_LINES[:12])
+                listed = who
+            elif kind_ == "hide":
+                line = rng.choice(HIDE_LINES)
+            else:
+                line = rng.choice(PLAIN_LINES[:5])
+            ops.append(gwrite(rel, content(line, rel, rng, kind_ != "public", crlf=rng.random() < 0.1)))
+            if rng.random() < 0.1:
+                ops.append(pipe.clear_page(sp + q))
+            fresh = [v for v in vals if v not in first] or vals
+            vb = rng.choice(fresh)
+            who1 = rng.choice(SAME_AS_1) if listed == 1 else listed
+            # a listed client asks for a variant the cached item lacks, then strangers ask for it
+            ops.append(greq(sp + q, addr=who1, headers=[(hv, vb)], method=rng.choice([b"GET", b"GET", b"GET", b"HEAD"])))
+            for _ in range(rng.randrange(1, 4)):
+                h = [(hv, rng.choice([vb, vb, vb, rng.choice(vals)]))]
+                if rng.random() < 0.2:
+                    h = h + fwd(rng)
+                if rng.random() < 0.15:
+                    h = h + rng.choice([[(b"if-modified-since", b"@T+100")], [(b"accept-encoding", b"gzip")], [(b"range", b"bytes=0-20")]])
+                ops.append(greq(sp + rng.choice([q, q, q, b"", b"?x=1"]), addr=strangers(), headers=h, method=rng.choice([b"GET", b"GET", b"GET", b"HEAD"])))
+            if rng.random() < 0.6:
+                ops.append(greq(sp + q, addr=who1, headers=[(hv, vb)]))
+                ops.append(greq(sp + q, addr=strangers(), headers=[(hv, vb)]))
+            if rng.random() < 0.3:
+                # without the vary header (the default variant), and the unencoded / another spelling of the path
+                ops.append(greq(sp + q, addr=who1, headers=[]))
+                ops.append(greq(sp + q, addr=strangers(), headers=[]))
+                ops.append(greq(path_req + q, addr=strangers(), headers=[(hv, vb)]))
+            first = first + [vb]
+        cases += mk(rng, files, ops, "transition/" + start, vary=vary, both=(i % 4 == 0), cache=True, default_ext=de)
+    return cases
+
+
+# line lengths (offset of the line feed). The Gallina parser transcribes the Rust loop with its slices (quadratic in the length of the
+# line), so the differential histories stop at 1025 bytes (4097 in the thorough tier); longer lines go through the wire component,
+# where the marker oracle and the refused-vs-absent comparison need no model
+LINE_EDGES = [255, 256, 257, 511, 512, 513, 1023, 1024, 1025]
+LINE_EDGES_4K = [4095, 4096, 4097]
+LINE_EDGES_BIG = [16383, 16384, 65535, 65536, 65537]
+
+
+def _fit(line, target, rng):
+    """extends a '!> ' line to exactly `target` bytes (the offset of its line feed), if it is shorter, by means that do not change its
+    meaning: more spaces between words, a long argument of a directive that is not mounted, or one more directive without effect"""
+    need = target - len(line)
+    if need <= 0:
+        return line
+    how = rng.choice(["spaces", "unknown", "cache"]) if need >= 20 else "spaces"
+    if how == "spaces":
+        return line + b" " * need
+    if how == "unknown":
+        return line + b" &> unknown-ext " + b"x" * (need - len(b" &> unknown-ext "))
+    return line + b" &> cache client:" + b"0" * (need - len(b" &> cache client:") - 3) + b"60s"
+
+
+def long_line(rng, edges, kmax=100, near=True):
+    """a guarded file with a long '!> ' line: (rel, line, crlf, listed client, other members of the list, shape)"""
+    shape = rng.choice(["v4-list", "v4-list", "v6-list", "mixed-list", "many-directives", "long-arg", "hide-last", "allow-last", "two-lists"])
+    k = min(kmax, rng.choice([1, 5, 20, 30, 42, 43, 44, 50, 60, 80, 100, rng.randrange(1, 101)]))
+    v4 = [b"10.20.%d.%d" % (rng.randrange(256), rng.randrange(1, 255)) for _ in range(k)]
+    v6 = [(b"2001:db8:%x:%x::%x" % (rng.randrange(65536), rng.randrange(65536), rng.randrange(1, 65536))) for _ in range(k)]
+    listed = 1
+    me = b"10.0.0.1"
+    if shape in ("v6-list",):
+        pool, me, listed = v6, b"2001:db8::1", V6("2001:db8::1")
+    elif shape == "mixed-list":
+        pool = [rng.choice(pair) for pair in zip(v4, v6)]
+    else:
+        pool = v4
+    pos = rng.choice([0, len(pool) // 2, len(pool)])
+    include = rng.random() < 0.8
+    args = pool[:pos] + ([me] if include else []) + pool[pos:]
+    allow = b"allow-ips " + b" ".join(args)
+    if shape == "many-directives":
+        pre = b" &> ".join(rng.choice([b"cache server:full", b"cache client:60s", b"unknown-ext a b c", b"download", b"cache server:full client:full"])
+                           for _ in range(rng.randrange(5, 40)))
+        line = b"!> " + (pre + b" &> " + allow if rng.random() < 0.5 else allow + b" &> " + pre)
+    elif shape == "long-arg":
+        line = b"!> unknown-ext " + b"y" * rng.choice([300, 509, 600]) + b" &> " + allow + b" &> cache server:full"
+    elif shape == "hide-last":
+        line = b"!> " + allow + b" &> cache server:full &> hide"
+    elif shape == "allow-last":
+        line = b"!> cache server:full &> unknown-ext " + b" ".join(v4[:rng.randrange(1, 40)]) + b" &> " + allow
+    elif shape == "two-lists":
+        line = b"!> " + allow + b" &> cache server:full &> allow-ips " + b" ".join([me] + v4[:rng.randrange(1, 30)])
+    else:
+        line = b"!> " + allow + rng.choice([b"", b"", b" &> cache server:full"])
+    bigger = [e for e in edges if e >= len(line)]
+    if bigger and (len(edges) == 1 or rng.random() < 0.8):
+        tgt_len = rng.choice(bigger[:4] if near else bigger)
+        if shape in ("hide-last", "allow-last", "two-lists"):
+            # what decides stands at the END of the line: fit in front of it
+            head, sep, tail = line.rpartition(b" &> ")
+            line = _fit(head, tgt_len - len(sep) - len(tail), rng) + sep + tail
+        else:
+            line = _fit(line, tgt_len - (1 if rng.random() < 0.1 else 0), rng)
+    rel = rng.choice([b"long.txt", b"l/list.html", b"ll"])
+    return rel, line, rng.random() < 0.1, listed, (pool if shape in ("v4-list", "mixed-list", "v6-list") else []), shape
+
+
+def long_line_cases(rng, n, tier):
+    """LONG '!> ' lines (theorems guard_line_any_length / long_allow_list_decides: the line has no length limit): allow lists of 1..100
+    addresses (IPv4, IPv6, mixed; the listed client first, in the middle or last), many directives, long arguments, lines fitted to
+    255..257, 511..513, 1023..1025 bytes (4095..4097 in the thorough tier; longer ones: long_line_wire_cases); a 'hide' or the allow list
+    itself may stand at the very end of the line, behind everything else"""
+    cases = []
+    for i in range(n):
+        edges = LINE_EDGES + (LINE_EDGES_4K if tier != "quick" and i % 14 == 0 else [])
+        rel, line, crlf, listed, pool, shape = long_line(rng, edges, kmax=60 if tier == "quick" or i % 8 else 100)
+        data = content(line, rel, rng, True, crlf=crlf)
+        if i % 7 == 3:
+            # a BIG guarded file (the marker stands right after the line and once more at the very end)
+            data += b" filler" * (rng.choice([5000, 9000, 20000]) // 7) + b" " + data[data.index(b"SECRET:"):data.index(b";") + 1]
+        files = [xl(xb(b"public/" + rel), xb(data))]
+        tgt = (b"/" + rel, "long", rel, listed, line)
+        sps = [(b"/" + rel, tgt)] + ([(encode(b"/" + rel, rng.getrandbits(len(rel)), rng), tgt)] if rng.random() < 0.5 else [])
+        twins = []
+        ops = history(rng, sps, extra_addrs=2, twins=twins)
+        # clients that ARE on the list but not the first one of it
+        if pool:
+            other = rng.choice(pool)
+            ops.append(greq(b"/" + rel, addr=(V6 if b":" in other else V4)(other.decode())))
+            ops.append(greq(b"/" + rel, addr=rng.choice(STRANGERS)))
+        cases += mk(rng, files, ops, ("big-file/" if i % 7 == 3 else "long-line/") + shape, both=(i % 3 == 0), twins=[(a, b_, "a" if k_ == "a" else "h") for a, b_, k_ in twins])
+    return cases
+
+
+def long_line_wire_cases(rng, n):
+    """the same files with lines of up to 65537 bytes, over the wire: the harness judges marker leaks and compares the refused answer
+    with the answer for a path that does not exist (no model run is needed for that)"""
+    cases = []
+    for i in range(n):
+        edges = [65536 + (i // 6) % 2] if i % 6 == 0 else (LINE_EDGES_4K + LINE_EDGES_BIG) if i % 2 == 0 else (LINE_EDGES[3:] + LINE_EDGES_4K)
+        rel, line, crlf, listed, pool, shape = long_line(rng, edges, near=False)
+        data = content(line, rel, rng, True, crlf=crlf)
+        if i % 4 == 1:
+            # a BIG guarded file (the marker stands right after the line and once more at the very end)
+            data += b" filler" * (rng.choice([70000, 300000]) // 7) + b" " + data[data.index(b"SECRET:"):data.index(b";") + 1]
+        files = [xl(xb(b"public/" + rel), xb(data))]
+        hidden, allow = _py_guard(rel, line + b"\n")
+        ops = []
+        who = [rng.choice(SAME_AS_1) if listed == 1 else listed] + [rng.choice(ADDRS[2:] + STRANGERS) for _ in range(3)]
+        if pool:
+            other = rng.choice(pool)
+            who.append((V6 if b":" in other else V4)(other.decode()))
+        who.append(who[0])
+        for a in who:
+            m = rng.choice([b"GET", b"GET", b"GET", b"HEAD"])
+            h = rng.choice([[], [], [(b"range", b"bytes=0-40")], [(b"accept-encoding", b"gzip")], [(b"range", b"bytes=-30")]])
+            sp = b"/" + rel if rng.random() < 0.6 else encode(b"/" + rel, rng.getrandbits(len(rel)), rng)
+            ok = (not hidden) and allow is not None and py_ip(xaddr(a)) in allow
+            if ok:
+                ops.append(wreq(sp, m, a, h, rel, 0))
+            else:
+                ops.append(wreq(b"/zz-none-%d.txt" % len(ops), m, a, h, b"", 0))
+                # (cache-control of the refused answer is allow-ips' own; status and body must be those of the missing page)
+                ops.append(wreq(sp, m, a, h, b"", 0))
+        cases.append(Case("guards.wire", pipe.scenario(pipe.cfg(cache=rng.random() < 0.8, fcache=rng.random() < 0.7, files=files, default_ext=False), ops),
+                          "guards.wire", {"kind": "wire/%s/%dk" % ("big-file" if i % 4 == 1 else "long-line", len(line) // 1000)}))
+    return cases
+
+
+def transition_wire_cases(rng, n):
+    """files that change, over the wire (what SendKind::send wrote of a variant added to an item of an earlier world: Range, HEAD)"""
+    cases = []
+    for i in range(n):
+        rel = rng.choice([b"page.html", b"t/doc.txt", b"news"])
+        sp = b"/" + rel
+        vary = [pipe.vary_rule(sp, [(b"x-v", 0, b"-")])]
+        files = [xl(xb(b"public/other.txt"), xb(content(None, b"other.txt", rng, False)))]
+        if rng.random() < 0.6:
+            files.append(xl(xb(b"public/" + rel), xb(content(rng.choice(PLAIN_LINES[:5]), rel, rng, False))))
+        hs = lambda v: [(b"x-v", v)] + rng.choice([[], [], [(b"range", b"bytes=0-40")], [(b"accept-encoding", b"gzip")], [(b"range", b"bytes=-30")]])
+        meth = lambda: rng.choice([b"GET", b"GET", b"GET", b"HEAD"])
+        stranger = lambda: rng.choice(ADDRS[2:] + STRANGERS)
+        ops = [wreq(sp, meth(), stranger(), hs(b"a"), b"", 0)]
+        vals = [b"b", b"c", b"d"]
+        for rd in range(rng.randrange(1, 3)):
+            line = rng.choice(ALLOW_LINES[:14] + HIDE_LINES[:2]) if rd else rng.choice(ALLOW_LINES[:14])
+            hidden, allow = _py_guard(rel, line + b"\n")
+            ops.append(gwrite(rel, content(line, rel, rng, True)))
+            v = vals[rd]
+            for a in [rng.choice(SAME_AS_1), stranger(), stranger(), rng.choice(SAME_AS_1), stranger()]:
+                ok = (not hidden) and allow is not None and py_ip(xaddr(a)) in allow
+                ops.append(wreq(sp, meth(), a, hs(rng.choice([v, v, v, b"a"])), rel if ok else b"", 0))
+        cases.append(Case("guards.wire", pipe.scenario(pipe.cfg(cache=True, fcache=rng.random() < 0.7, files=files, vary=vary, default_ext=False), ops),
+                          "guards.wire", {"kind": "wire/transition"}))
+    return cases
+
+
 def generate(rng, tier):
     cases = witnesses(rng) + known_tmpl(rng)
     n = 150 if tier == "quick" else 2400
@@ -635,7 +930,11 @@ def generate(rng, tier):
         twins = []
         ops = history(rng, sp, extra_addrs=2, twins=twins)
         cases += mk(rng, files, ops, "malformed-line", both=False, twins=[(a, b, "a" if k == "a" else "h") for a, b, k in twins])
+    cases += transition_cases(rng, 40 if tier == "quick" else 360)
+    cases += long_line_cases(rng, 36 if tier == "quick" else 280, tier)
     cases += wire_cases(rng, 36 if tier == "quick" else 500)
+    cases += long_line_wire_cases(rng, 12 if tier == "quick" else 60)
+    cases += transition_wire_cases(rng, 8 if tier == "quick" else 48)
     cases += push_cases(rng, 6 if tier == "quick" else 60)
     cases += expiry_cases(rng, 2 if tier == "quick" else 8)
     return cases
@@ -672,6 +971,39 @@ def _scenario(c):
             else:
                 files[p_] = c_
     return files, ops[1], twins
+
+
+def _views(c):
+    """what the server holds (path -> content) at every operation of the history: the files of the scenario, changed by the write
+    operations (L (N 4) rel content); an entry of the file cache (also a stale or a negative one) hides the disk"""
+    cfg, ops = c.x[1]
+    disk, seed, fcache = {}, [], True
+    for e in cfg[1]:
+        if e[1][0][1] == b"files":
+            for f in e[1][1][1]:
+                disk[f[1][0][1]] = f[1][1][1]
+        if e[1][0][1] == b"fcache_seed":
+            seed = [(t[1][0][1], t[1][1][1][0][1] if t[1][1][1] else None) for t in e[1][1][1]]
+        if e[1][0][1] == b"fcache":
+            fcache = e[1][1][1] == 1
+
+    def view():
+        v = dict(disk)
+        if fcache:
+            for p_, c_ in seed:
+                if c_ is None:
+                    v.pop(p_, None)
+                else:
+                    v[p_] = c_
+        return v
+
+    out, cur = [], view()
+    for o in ops[1]:
+        if o[1][0][1] == 4:
+            disk[b"public/" + o[1][1][1]] = o[1][2][1]
+            cur = view()
+        out.append(cur)
+    return out
 
 
 def _markers(reply):
@@ -785,6 +1117,7 @@ def extra_oracle(c, impl):
         return None if impl == "(L)" else "on the wire: " + kv.pretty(xparse(impl), 700)
     try:
         files, ops, twins = _scenario(c)
+        views = _views(c)
         replies = xparse(impl)[1]
     except Exception:
         return None
@@ -795,7 +1128,8 @@ def extra_oracle(c, impl):
             continue
         ip = py_ip(o[1][1])
         for name in _markers(rp):
-            data = files.get(b"public/" + name)
+            # (the file as the server holds it at the moment of this request)
+            data = views[i].get(b"public/" + name)
             if data is None:
                 return "reply %d carries a marker of an unknown file %r" % (i, name)
             hidden, allow = _py_guard(name, data)
@@ -873,22 +1207,36 @@ def directed(rng, mismatches):
         twins = []
         ops = history(rng, sps, extra_addrs=2, methods=False, twins=twins)
         cases += mk(rng, files, ops, "directed", both=False, cache=True, fcache=True, twins=twins, plain_err=plain_err)
+    cases += transition_cases(rng, 40) + long_line_cases(rng, 30, "quick")
     return cases
 
 
 def extra_coverage(cases, impl, model, spec):
-    nreq = served = refused = spellings = v6 = twins_n = wire = wire_req = 0
+    nreq = served = refused = spellings = v6 = twins_n = wire = wire_req = writes = after_write = longest = long_files = 0
     seen = set()
     for c in cases:
         i = impl.get(c.id)
         if i is None:
             continue
+        for f_ in (e[1][1][1] for e in c.x[1][0][1] if e[1][0][1] == b"files"):
+            for f in f_:
+                d_ = f[1][1][1]
+                if d_.startswith(b"!> ") and b"\n" in d_:
+                    longest = max(longest, d_.index(b"\n"))
+                    long_files += d_.index(b"\n") >= 512
         if c.comp in ("guards.wire", "guards.push"):
             wire += 1
             wire_req += sum(1 for o in c.x[1][1][1] if o[1][0][1] == 0)
             continue
         try:
             _, ops, tw = _scenario(c)
+            w_seen = False
+            for o in ops:
+                if o[1][0][1] == 4:
+                    writes += 1
+                    w_seen = True
+                elif o[1][0][1] == 0 and w_seen:
+                    after_write += 1
             rs = xparse(i)[1]
         except Exception:
             continue
@@ -909,7 +1257,9 @@ def extra_coverage(cases, impl, model, spec):
                 refused += 1
     return {"requests": nreq, "requests_from_ipv6_clients": v6, "distinct_percent_encoded_targets": spellings,
             "replies_with_guarded_content_to_listed_address": served, "replies_404": refused,
-            "refused_vs_absent_pairs_compared": twins_n, "wire_histories": wire, "wire_requests": wire_req}
+            "refused_vs_absent_pairs_compared": twins_n, "wire_histories": wire, "wire_requests": wire_req,
+            "file_rewrites_during_histories": writes, "requests_after_a_rewrite": after_write,
+            "guarded_files_with_line_of_512_bytes_or_more": long_files, "longest_guard_line_bytes": longest}
 
 
 def describe(c):
